@@ -1,6 +1,6 @@
 //! C11 (engine S part): the *search* of get_lower_index - range clamps, every possible initial guess and the
 //! binary search - returns the bracketing interval. Mode O, symbolic strictly increasing axis and symbolic
-//! non-NaN query: the float->usize cast of the guess is a branch point taking every index 0..=len-2, the
+//! non-NaN query: the float->usize cast of the guess is a branch point taking every index 0..=len-1 (rounding can push the guess of a query just below the last knot onto len-1), the
 //! comparisons are bit-precise IEEE. That the real guess is in that range (and the cast never fails) is
 //! decided by engine K on the f32/f64/i32/i64 code for the small lengths.
 use ndarray::Array1;
@@ -127,8 +127,8 @@ pub fn run(args: &Args) -> Report {
     let to = if args.thorough() { 120_000 } else { 20_000 };
     let mut rep = par_run((2..=nmax).map(|n| (n, to)).collect::<Vec<(usize, u64)>>(), args.threads, check_len);
     rep.functions.insert("vector_extensions::VectorExtensions::get_lower_index".into());
-    rep.bounds.push(format!("engine S: axis length 2..{nmax}, axis values and query all IEEE doubles under x_i < x_i+1 and q non-NaN (infinite queries included); the initial guess takes every index 0..=len-2"));
+    rep.bounds.push(format!("engine S: axis length 2..{nmax}, axis values and query all IEEE doubles under x_i < x_i+1 and q non-NaN (infinite queries included); the initial guess takes every index 0..=len-1"));
     rep.outside.push("lengths above the bounds (in particular the 10^4 of the quantifier text and the theoretical f32 guess overflow at n >= 2^23)".into());
-    rep.assumptions.insert("mode O: comparisons bit-precise IEEE, arithmetic uninterpreted; that the real guess lies in 0..=len-2 and its cast does not fail is decided by the engine K harnesses c11_lower_idx_* for the lengths listed there".into());
+    rep.assumptions.insert("mode O: comparisons bit-precise IEEE, arithmetic uninterpreted; that the cast of the real guess does not fail and yields an index in 0..=len-1 follows from the no-panic verdict by the engine K harnesses c11_lower_idx_* for the lengths listed there".into());
     rep
 }
